@@ -53,6 +53,9 @@ pub async fn on_document_selection_range_handle(
             ranges.push(range);
         }
 
+        // a node that spans exactly its child is not a larger selection
+        ranges.dedup();
+
         let mut parent: Option<Box<SelectionRange>> = None;
         for range in ranges.into_iter().rev() {
             let lsp_range = document.to_lsp_range(range)?;
